@@ -34,137 +34,171 @@ class Refuse(Exception):
     pass
 
 
-def _const_int(node):
-    if isinstance(node, ast.Constant) and isinstance(node.value, int) and not isinstance(node.value, bool):
-        return node.value
-    if isinstance(node, ast.BinOp) and isinstance(node.op, (ast.Pow, ast.Mult, ast.Add, ast.Sub)):
-        a, b = _const_int(node.left), _const_int(node.right)
-        if isinstance(node.op, ast.Pow):
-            if not (0 <= b <= 64):
-                raise Refuse("exponent out of range")
-            return a ** b
-        return {ast.Mult: a * b, ast.Add: a + b, ast.Sub: a - b}[type(node.op)]
-    raise Refuse("MAX_FEATURES_3MR is not an integer constant expression: %s" % ast.dump(node))
-
-
 def _is_args_attr(node, attr):
     return (isinstance(node, ast.Attribute) and node.attr == attr and isinstance(node.value, ast.Name)
             and node.value.id == "args")
 
 
-def _fn(tree, name):
-    fs = [n for n in tree.body if isinstance(n, ast.FunctionDef) and n.name == name]
-    if len(fs) != 1:
-        raise Refuse("expected exactly one top-level def %s" % name)
-    return fs[0]
+def _const_value(node, depth=0):
+    """int/str literal or an integer constant expression (10 ** 4, 2 * 5000, ...); None when it is not one."""
+    if isinstance(node, ast.Constant) and isinstance(node.value, (int, str)) and not isinstance(node.value, bool):
+        return node.value
+    if isinstance(node, ast.BinOp) and isinstance(node.op, (ast.Pow, ast.Mult, ast.Add, ast.Sub)) and depth < 6:
+        a, b = _const_value(node.left, depth + 1), _const_value(node.right, depth + 1)
+        if isinstance(a, int) and isinstance(b, int):
+            if isinstance(node.op, ast.Pow):
+                return a ** b if 0 <= b <= 64 else None
+            return {ast.Mult: a * b, ast.Add: a + b, ast.Sub: a - b}[type(node.op)]
+    if isinstance(node, ast.UnaryOp) and isinstance(node.op, ast.USub):
+        v = _const_value(node.operand, depth + 1)
+        return -v if isinstance(v, int) else None
+    return None
+
+
+class _Source:
+    """Module-level view of a source file: names bound exactly once at module level to a literal / constant expression, the
+    top-level functions, and what is reachable from given functions through calls of top-level helpers."""
+
+    def __init__(self, path):
+        self.tree = ast.parse(open(path, encoding="utf8").read())
+        bound = {}
+        for n in self.tree.body:
+            tgt = val = None
+            if isinstance(n, ast.Assign) and len(n.targets) == 1 and isinstance(n.targets[0], ast.Name):
+                tgt, val = n.targets[0].id, n.value
+            elif isinstance(n, ast.AnnAssign) and isinstance(n.target, ast.Name) and n.value is not None:
+                tgt, val = n.target.id, n.value
+            if tgt is not None:
+                bound.setdefault(tgt, []).append(val)
+        self.consts = {}
+        for name, vals in bound.items():
+            if len(vals) == 1:
+                v = _const_value(vals[0])
+                if v is not None:
+                    self.consts[name] = v
+        self.funcs = {n.name: n for n in self.tree.body if isinstance(n, ast.FunctionDef)}
+
+    def value(self, node):
+        """Literal, constant expression, or a Name bound once at module level to one (one more Name hop allowed)."""
+        v = _const_value(node)
+        if v is not None:
+            return v
+        if isinstance(node, ast.Name) and node.id in self.consts:
+            return self.consts[node.id]
+        return None
+
+    def reachable(self, roots, stop=()):
+        seen, todo = [], [r for r in roots if r in self.funcs]
+        while todo:
+            f = todo.pop()
+            if f in seen:
+                continue
+            seen.append(f)
+            for n in ast.walk(self.funcs[f]):
+                if isinstance(n, ast.Call) and isinstance(n.func, ast.Name) and n.func.id in self.funcs \
+                        and n.func.id not in stop and n.func.id not in seen:
+                    todo.append(n.func.id)
+        return [self.funcs[f] for f in seen]
 
 
 def extract_source_constants(path=None):
-    """Returns dict(max_features, s_3mr, s_true, s_constant, s_and_rel); raises Refuse when the source does not
-    have the recognised shape (every comparison on args.heuristic / args.target_ranking_only inside the two
-    anchored functions must be one of the modelled tests)."""
-    tree = ast.parse(open(path or SRC, encoding="utf8").read())
-    maxf = None
-    for n in tree.body:
-        if isinstance(n, ast.Assign) and len(n.targets) == 1 and isinstance(n.targets[0], ast.Name) \
-                and n.targets[0].id == "MAX_FEATURES_3MR":
-            if maxf is not None:
-                raise Refuse("MAX_FEATURES_3MR assigned twice")
-            maxf = _const_int(n.value)
-        elif isinstance(n, ast.AnnAssign) and isinstance(n.target, ast.Name) and n.target.id == "MAX_FEATURES_3MR":
-            if maxf is not None or n.value is None:
-                raise Refuse("MAX_FEATURES_3MR assigned twice")
-            maxf = _const_int(n.value)
-    if maxf is None:
-        raise Refuse("MAX_FEATURES_3MR not found at module level")
-    got = {"heur_in": set(), "heur_eq": set(), "tro_eq": set(), "tro_ne": set(), "col_in": set()}
-    clamp_cmp = clamp_set = False
-    for fname in ("get_combinations_from_columns", "mixed_rank_graph"):
-        f = _fn(tree, fname)
-        for n in ast.walk(f):
-            if isinstance(n, ast.Compare):
-                if len(n.ops) != 1:
-                    raise Refuse("chained comparison in %s" % fname)
-                op, l, r = n.ops[0], n.left, n.comparators[0]
-                sides = [l, r]
-                if any(_is_args_attr(s, "heuristic") for s in sides):
-                    if isinstance(op, ast.In) and isinstance(l, ast.Constant) and isinstance(l.value, str) and _is_args_attr(r, "heuristic"):
-                        got["heur_in"].add(l.value)
-                    elif isinstance(op, ast.Eq) and _is_args_attr(l, "heuristic") and isinstance(r, ast.Constant) and isinstance(r.value, str):
-                        got["heur_eq"].add(r.value)
-                    else:
-                        raise Refuse("unrecognised test on args.heuristic in %s: %s" % (fname, ast.unparse(n)))
-                elif any(_is_args_attr(s, "target_ranking_only") for s in sides):
-                    if _is_args_attr(l, "target_ranking_only") and isinstance(r, ast.Constant) and isinstance(r.value, str) \
-                            and isinstance(op, (ast.Eq, ast.NotEq)):
-                        got["tro_eq" if isinstance(op, ast.Eq) else "tro_ne"].add(r.value)
-                    else:
-                        raise Refuse("unrecognised test on args.target_ranking_only in %s: %s" % (fname, ast.unparse(n)))
-                elif isinstance(op, ast.In) and isinstance(l, ast.Constant) and isinstance(l.value, str) \
-                        and isinstance(r, ast.Name) and fname == "get_combinations_from_columns":
-                    got["col_in"].add(l.value)
-                elif any(isinstance(s, ast.Name) and s.id == "MAX_FEATURES_3MR" for s in sides):
-                    if isinstance(op, ast.Gt) and _is_args_attr(l, "combination_number_upper_bound") \
-                            and isinstance(r, ast.Name) and r.id == "MAX_FEATURES_3MR":
-                        clamp_cmp = True
-                    else:
-                        raise Refuse("unrecognised clamp test: %s" % ast.unparse(n))
-            elif isinstance(n, ast.Assign) and len(n.targets) == 1 and _is_args_attr(n.targets[0], "combination_number_upper_bound"):
-                if isinstance(n.value, ast.Name) and n.value.id == "MAX_FEATURES_3MR":
-                    clamp_set = True
-                else:
-                    raise Refuse("unrecognised assignment to args.combination_number_upper_bound: %s" % ast.unparse(n))
-    if not (clamp_cmp and clamp_set):
-        raise Refuse("the clamp `if cap > MAX_FEATURES_3MR: cap = MAX_FEATURES_3MR` was not found")
-    for k, want in (("heur_in", 1), ("heur_eq", 1), ("col_in", 1)):
-        if len(got[k]) != want:
-            raise Refuse("expected exactly %d distinct constant(s) for %s, found %s" % (want, k, sorted(got[k])))
-    tro = got["tro_eq"] | got["tro_ne"]
-    if len(tro) != 1 or not got["tro_eq"]:
-        raise Refuse("expected one constant compared with args.target_ranking_only, found %s" % sorted(tro))
-    out = {"max_features": maxf, "s_3mr": got["heur_in"].pop(), "s_true": tro.pop(),
-           "s_constant": got["heur_eq"].pop(), "s_and_rel": got["col_in"].pop()}
-    out.update(_extract_reference_filter(tree))
-    return out
-
-
-def _extract_reference_filter(tree):
-    """The reference-model filter: `(' AND ').join(tuple(sorted(item.split(','))))` in mixed_rank_graph (or in a module-level helper
-    it calls) and the heuristic set of core_utils.is_prior_heuristic (`args.heuristic in {...} and args.reference_model_JSON`).
-    These constants are not named by the property; when the shape is not recognised the reader says so (None values) instead
-    of refusing - the reference-model cases of the correspondence hold the behaviour either way."""
+    """Reads, as far as the shapes are recognised, the constants and mode tests the model hard-codes.  Returns
+    {"read": {key: set of values found}, "unread": {key: reason}}.  Recognised shapes: literals or names bound once at module level
+    to a literal / constant expression; tests in either polarity (`in`/`not in`, `==`/`!=`), on either side; inside
+    get_combinations_from_columns / mixed_rank_graph or module-level helpers they call.  A key that is not found is UNREAD (an
+    evidence note: the correspondence pins the behaviour); a key found with a value/operator other than the model's is a mismatch."""
+    read = {k: set() for k in ("max_features", "heur_in", "heur_eq", "tro_eq", "col_in", "col_eq", "join", "split", "prior_heuristics")}
+    unread = {}
     try:
-        f = _fn(tree, "mixed_rank_graph")
-        helpers = {n.name: n for n in tree.body if isinstance(n, ast.FunctionDef)}
-        scopes = [f]
+        src = _Source(path or SRC)
+    except (OSError, SyntaxError) as e:
+        return {"read": read, "unread": {k: "source not parsed: %s" % e for k in read}}
+    anchors = ("get_combinations_from_columns", "mixed_rank_graph")
+    for a_ in anchors:
+        if a_ not in src.funcs:
+            unread["anchor:" + a_] = "no top-level def %s" % a_
+    for f in src.reachable(anchors):
         for n in ast.walk(f):
-            if isinstance(n, ast.Call) and isinstance(n.func, ast.Name) and n.func.id in helpers \
-                    and n.func.id not in ("get_combinations_from_columns", "prior_combinations_sample", "mixed_rank_graph"):
-                scopes.append(helpers[n.func.id])
-        joins, splits = set(), set()
-        for sc in scopes:
-            for n in ast.walk(sc):
-                if isinstance(n, ast.Call) and isinstance(n.func, ast.Attribute):
-                    if n.func.attr == "join" and isinstance(n.func.value, ast.Constant) and isinstance(n.func.value.value, str):
-                        joins.add(n.func.value.value)
-                    elif n.func.attr == "split" and len(n.args) == 1 and isinstance(n.args[0], ast.Constant) \
-                            and isinstance(n.args[0].value, str):
-                        splits.add(n.args[0].value)
-        if len(joins) != 1 or len(splits) != 1:
-            raise Refuse("join/split constants of the reference filter not found uniquely: %s / %s" % (sorted(joins), sorted(splits)))
-        upath = os.path.join(os.path.dirname(SRC), "core_utils.py")
-        g = _fn(ast.parse(open(upath, encoding="utf8").read()), "is_prior_heuristic")
-        sets = []
-        for n in ast.walk(g):
-            if isinstance(n, ast.Compare) and len(n.ops) == 1 and isinstance(n.ops[0], ast.In) and _is_args_attr(n.left, "heuristic") \
-                    and isinstance(n.comparators[0], (ast.Set, ast.List, ast.Tuple)) \
-                    and all(isinstance(e, ast.Constant) and isinstance(e.value, str) for e in n.comparators[0].elts):
-                sets.append(sorted(e.value for e in n.comparators[0].elts))
-        if len(sets) != 1:
-            raise Refuse("is_prior_heuristic: heuristic set not found")
-        return {"prior_heuristics": sets[0], "join": next(iter(joins)), "split": next(iter(splits)), "reference_filter_read": True}
-    except (Refuse, OSError, SyntaxError) as e:
-        return {"prior_heuristics": None, "join": None, "split": None, "reference_filter_read": False, "reference_filter_note": str(e)}
+            if isinstance(n, ast.Compare) and len(n.ops) == 1:
+                op, l, r = n.ops[0], n.left, n.comparators[0]
+                lv, rv = src.value(l), src.value(r)
+                if isinstance(op, (ast.In, ast.NotIn)) and isinstance(lv, str):
+                    if _is_args_attr(r, "heuristic"):
+                        read["heur_in"].add(lv)
+                    elif isinstance(r, ast.Name):
+                        read["col_in"].add(lv)                      # `' AND_REL ' in column`
+                elif isinstance(op, (ast.Eq, ast.NotEq)):
+                    for x, v in ((l, rv), (r, lv)):
+                        if isinstance(v, str) and _is_args_attr(x, "heuristic"):
+                            read["heur_eq"].add(v)
+                        elif isinstance(v, str) and _is_args_attr(x, "target_ranking_only"):
+                            read["tro_eq"].add(v)
+                        elif isinstance(v, str) and isinstance(x, ast.Name) and " AND" in v:
+                            read["col_eq"].add(v)
+                elif isinstance(op, (ast.Gt, ast.GtE, ast.Lt, ast.LtE)):
+                    for x, v in ((l, rv), (r, lv)):
+                        if isinstance(v, int) and _is_args_attr(x, "combination_number_upper_bound"):
+                            read["max_features"].add(v)
+            elif isinstance(n, ast.Call) and isinstance(n.func, ast.Attribute):
+                if n.func.attr == "join" and isinstance(src.value(n.func.value), str):
+                    read["join"].add(src.value(n.func.value))
+                elif n.func.attr == "split" and len(n.args) == 1 and isinstance(src.value(n.args[0]), str):
+                    read["split"].add(src.value(n.args[0]))
+            elif isinstance(n, ast.Call) and isinstance(n.func, ast.Name) and n.func.id == "min":
+                if any(_is_args_attr(x, "combination_number_upper_bound") for x in n.args):
+                    for x in n.args:
+                        if isinstance(src.value(x), int):
+                            read["max_features"].add(src.value(x))
+    if not read["max_features"] and isinstance(src.consts.get("MAX_FEATURES_3MR"), int):
+        # the constant exists but its use was not recognised: its value is still what the module binds
+        read["max_features"].add(src.consts["MAX_FEATURES_3MR"])
+    try:
+        usrc = _Source(os.path.join(os.path.dirname(path or SRC), "core_utils.py"))
+        for f in usrc.reachable(("is_prior_heuristic",)):
+            for n in ast.walk(f):
+                if isinstance(n, ast.Compare) and len(n.ops) == 1 and isinstance(n.ops[0], (ast.In, ast.NotIn)) \
+                        and _is_args_attr(n.left, "heuristic"):
+                    c0 = n.comparators[0]
+                    elts = c0.elts if isinstance(c0, (ast.Set, ast.List, ast.Tuple)) else None
+                    if elts is None and isinstance(c0, ast.Name):
+                        for m in usrc.tree.body:            # a module-level set/tuple of literals
+                            if isinstance(m, ast.Assign) and len(m.targets) == 1 and isinstance(m.targets[0], ast.Name) \
+                                    and m.targets[0].id == c0.id and isinstance(m.value, (ast.Set, ast.List, ast.Tuple)):
+                                elts = m.value.elts
+                    if elts is not None and all(isinstance(usrc.value(e), str) for e in elts):
+                        read["prior_heuristics"].add(tuple(sorted(usrc.value(e) for e in elts)))
+    except (OSError, SyntaxError):
+        pass
+    for k in ("max_features", "heur_in", "heur_eq", "tro_eq", "col_in", "join", "split", "prior_heuristics"):
+        if not read[k]:
+            unread[k] = "no recognised occurrence"
+    return {"read": read, "unread": unread}
+
+
+def compare_source_constants(found, model):
+    """-> (mismatches, unread).  A mismatch = a recognised occurrence whose constant / operator is not the model's."""
+    read = found["read"]
+    mism = []
+
+    def need(key, want, what):
+        if read[key] and want not in read[key]:
+            mism.append("%s: the source has %s, the model %r" % (what, sorted(map(repr, read[key])), want))
+    need("max_features", model["max_features"], "3mr clamp constant compared with args.combination_number_upper_bound")
+    need("heur_in", model["s_3mr"], "substring tested in args.heuristic")
+    need("heur_eq", model["s_constant"], "string compared with args.heuristic")
+    need("tro_eq", model["s_true"], "string compared with args.target_ranking_only")
+    need("col_in", model["s_and_rel"], "substring that marks relation columns")
+    need("join", model["join"], "joiner of reference-model feature names")
+    need("split", model["split"], "separator of reference-model feature lists")
+    need("prior_heuristics", tuple(model["prior_heuristics"]), "heuristic set of is_prior_heuristic")
+    # the model's constant under the other operator class
+    if model["s_3mr"] in read["heur_eq"]:
+        mism.append("args.heuristic is compared for EQUALITY with %r (the model tests the substring)" % model["s_3mr"])
+    if model["s_constant"] in read["heur_in"]:
+        mism.append("%r is tested as a SUBSTRING of args.heuristic (the model tests equality)" % model["s_constant"])
+    if model["s_and_rel"] in read["col_eq"]:
+        mism.append("a column is compared for EQUALITY with %r (the model tests the substring)" % model["s_and_rel"])
+    return mism, dict(found["unread"])
 
 
 # ---------------------------------------------------------------------------
@@ -856,30 +890,26 @@ def check(run, replay):
     ok2, log2 = vlib.build(["Pipeline/CombosShared.vo"])     # informational (audit L8): depends on other builders' Pool.v / Interact.v
     run.oblige("build:Pipeline/CombosShared.vo (mirror / slice length agree with Pool.v, Interact.v, Sampler.v)", ok2, "" if ok2 else log2[-800:])
 
-    # translator-checked constants: the source's literals against the model's
-    try:
-        k = extract_source_constants()
-        mv = vlib.coq_eval("C06k", HEADER, ["(max_features_3mr, s_3mr, s_True, s_Constant, s_and_rel, prior_heurs, s_join_and, [c_comma])"])[0]
-        model_k = {"max_features": mv[0], "s_3mr": vlib.from_codes(mv[1]), "s_true": vlib.from_codes(mv[2]),
-                   "s_constant": vlib.from_codes(mv[3]), "s_and_rel": vlib.from_codes(mv[4]),
-                   "prior_heuristics": sorted(vlib.from_codes(x) for x in mv[5]), "join": vlib.from_codes(mv[6]),
-                   "split": vlib.from_codes(mv[7])}
-        soft = {kk: k.pop(kk, None) for kk in ("reference_filter_read", "reference_filter_note")}
-        run.cov["reference_filter_constants_read_from_source"] = bool(soft["reference_filter_read"])
-        if not soft["reference_filter_read"]:
-            run.notes.append("reference-filter constants not recognised in the source (%s); held by the reference-model cases only"
-                             % soft["reference_filter_note"])
-            for kk in ("prior_heuristics", "join", "split"):
-                k[kk] = model_k[kk]
-        same = model_k == k
-        run.oblige("translator:constants and mode tests of core_ranking.py = model constants", same,
-                   "" if same else "source %r model %r" % (k, model_k))
-        if not same:
-            run.violation("broken-obligation", "translator:constants (MAX_FEATURES_3MR / '3mr' / 'True' / 'Constant' / ' AND_REL ')",
-                          found_input=False, extra={"source": k, "model": model_k})
-    except Refuse as e:
-        run.oblige("translator:constants and mode tests of core_ranking.py = model constants", False, str(e))
-        run.violation("broken-obligation", "translator:c06 refuses the shape of core_ranking.py", found_input=False, extra=str(e))
+    # constants and mode tests of the source against the model's (an extra tie on top of the correspondence):
+    # recognised shape with another constant/operator -> broken obligation; unrecognised shape -> evidence note only
+    mv = vlib.coq_eval("C06k", HEADER, ["(max_features_3mr, s_3mr, s_True, s_Constant, s_and_rel, prior_heurs, s_join_and, [c_comma])"])[0]
+    model_k = {"max_features": mv[0], "s_3mr": vlib.from_codes(mv[1]), "s_true": vlib.from_codes(mv[2]),
+               "s_constant": vlib.from_codes(mv[3]), "s_and_rel": vlib.from_codes(mv[4]),
+               "prior_heuristics": sorted(vlib.from_codes(x) for x in mv[5]), "join": vlib.from_codes(mv[6]),
+               "split": vlib.from_codes(mv[7])}
+    found = extract_source_constants()
+    mism, unread = compare_source_constants(found, model_k)
+    run.cov["source_constants_read"] = not unread
+    run.cov["source_constants_found"] = {k_: sorted(map(str, v_)) for k_, v_ in found["read"].items()}
+    if unread:
+        run.cov["source_constants_unread"] = unread
+        run.notes.append("source constants not recognised by the ast reader (no alarm; the correspondence pins the behaviour: mode tests, "
+                         "Constant single-row rule, relation marker and joiners on every case, the 3mr clamp through the cap observed after "
+                         "the call and the >10^4-candidate case): %s" % unread)
+    run.oblige("translator:recognised constants / mode tests of core_ranking.py agree with the model", not mism, "; ".join(mism))
+    if mism:
+        run.violation("broken-obligation", "translator:constants (MAX_FEATURES_3MR / '3mr' / 'True' / 'Constant' / ' AND_REL ' / reference filter)",
+                      found_input=False, extra={"mismatches": mism, "model": model_k})
 
     if replay is not None:
         cases = [replay["case"]]
